@@ -53,6 +53,7 @@ theorem GTr.wrapForR {s0 : State} {m : EvalM RVal} (hm : GTr I s0 m) (h g : Stat
       match m s1 with
       | .ok v s2 => .ok v (h s1 s2)
       | .err v msg p t s2 => .err v msg p t (g s1 s2)
+      | .fail (.syn e) s2 => .fail (.syn e) (g s1 s2)
       | other => other) := by
   refine ⟨fun s1 hs1 => ?_⟩
   have h' := hm.run s1 hs1
@@ -60,7 +61,12 @@ theorem GTr.wrapForR {s0 : State} {m : EvalM RVal} (hm : GTr I s0 m) (h g : Stat
   cases m s1 with
   | ok a s2 => exact fun h' => I.keep h' (hh s1 s2)
   | err v msg p t s2 => exact fun h' => I.keep h' (hg s1 s2)
-  | fail f s2 => exact id
+  | fail f s2 =>
+    cases f with
+    | syn e => exact fun h' hf => I.keep (h' hf) (hg s1 s2)
+    | oof => exact id
+    | unsupported w => exact id
+    | host k => exact id
 
 /-- `let s ← getS`, keeping the fact that `s` is the current state -/
 theorem GTr.getS_bind_at {β} {s0 : State} {f : State → EvalM β}
